@@ -44,6 +44,8 @@ void h_cmp_float(void) {
 }
 
 /* default branch: plain structs without their own Cmp are compared byte-wise over size(type) bytes */
+struct Odd12 { int a, b, c; };          /* a plain user type whose size is not a multiple of the word size */
+static var Odd12 = Cello(Odd12);
 void h_cmp_default(void) {
   OBJ(Ref, A); OBJ(Ref, B);
   var a = MK(A, Ref, AllocStack), b = MK(B, Ref, AllocData);
@@ -55,6 +57,12 @@ void h_cmp_default(void) {
   ASSERT((r == 0) == (in_a == in_b), "default cmp is 0 only for equal values");
   ASSERT(SIGN(cmp(b, a)) == -SIGN(r), "default cmp antisymmetric");
   ASSERT(cv_throws == 0, "no exception on same-type default cmp");
+  /* two values equal over their own 12 bytes, with different bytes right behind them */
+  static struct { struct Header h; struct Odd12 v; unsigned char after[8]; } P, Q;
+  var p = header_init(&P.h, Odd12, AllocStack), q = header_init(&Q.h, Odd12, AllocStack);
+  P.v.a = Q.v.a = nondet_int(); P.v.b = Q.v.b = nondet_int(); P.v.c = Q.v.c = nondet_int();
+  for (int i = 0; i < 8; i++) { P.after[i] = nondet_uchar(); Q.after[i] = nondet_uchar(); }
+  ASSERT(cmp(p, q) == 0 && sizeof(struct Odd12) == 12, "[C09] default cmp looks at exactly size(type) bytes: equal values compare equal whatever lies behind them");
   COVER(r < 0, "default cmp negative"); COVER(r == 0, "default cmp zero");
 }
 
